@@ -1330,7 +1330,10 @@ class TangentVector(PointPair):
         v2 = project_to_hyperboloid(self.point, other.normalized().vector)
 
         product = utils.apply_bilinear(v1, v2, self.minkowski)
-        return np.arccos(product)
+
+        #clamp to combat roundoff error: |<v1,v2>| <= 1 for unit
+        #tangent vectors, but the computed product can fall just outside
+        return np.arccos(np.clip(product, -1, 1))
 
     def point_along(self, distance):
         """Get a point in hyperbolic space along the geodesic specified by
